@@ -19,6 +19,17 @@ PREFIX = {"history-search-forward", "history-search-backward"}
 SUBSTR = {"history-substring-search-forward", "history-substring-search-backward"}
 
 
+def rx_match(pat, line):
+    """does the incremental-search text match the line as a regular expression (case-insensitive unless it has an upper-case
+    letter; a text that is not a valid expression is searched literally) - the documented matching of the incremental search"""
+    ps, ls = "".join(map(chr, pat)), "".join(map(chr, line))
+    flags = 0 if any(c.isupper() for c in ps) else re.I
+    try:
+        return re.search(ps, ls, flags) is not None
+    except re.error:
+        return (ps in ls) if flags == 0 else (ps.lower() in ls.lower())
+
+
 def ints(s):
     return [ord(c) for c in s]
 
@@ -86,7 +97,7 @@ def project(cs, evs, maxentries):
                 if b["minibuf"] and not e["minibuf"]:
                     pre = mini_open if mini_open is not None else e["line"]
                     out.append(({"ev": "nav", "cmd": cmd, "kind": "substr" if mini_text else "other", "delta": 0, "pre": pre, "cur": len(pre),
-                                 "stext": mini_text, "post": e["line"],
+                                 "stext": mini_text, "post": e["line"], "rx": bool(mini_text) and rx_match(mini_text, e["line"]),
                                  "srcsame": b.get("hsrc") == e.get("hsrc") or cmd.startswith("accept") or cmd in RECORD | REPLAY}, e))
                     mini_open = None
                     continue
@@ -115,12 +126,14 @@ def project(cs, evs, maxentries):
                             delta = n
                         elif cmd in ("down-line-or-history", "vi-down-line-or-history"):
                             delta = -n
+                    if cmd == "infer-next-history":
+                        kind = "infer"
                     if cmd in PREFIX:
                         kind = "prefix"
                     elif cmd in SUBSTR:
                         kind = "substr"
                     stext = pre[:b["cur"]] if b["cur"] < len(pre) else pre
-                    out.append(({"ev": "nav", "cmd": cmd, "kind": kind, "delta": delta, "pre": pre, "cur": b["cur"], "stext": stext, "post": post,
+                    out.append(({"ev": "nav", "cmd": cmd, "kind": kind, "delta": delta, "pre": pre, "cur": b["cur"], "stext": stext, "post": post, "rx": False,
                                  "srcsame": b.get("hsrc") == e.get("hsrc")}, e))
                 elif e["line"] != b["line"] and not e["minibuf"]:
                     out.append(({"ev": "edit", "post": e["line"]}, e))
